@@ -5,8 +5,15 @@ import (
 	"verif/harness/lib"
 )
 
+// kshape: what is known statically about a key whose value is a map itself
+type kshape struct {
+	typed bool  // the Go type of the nested map is map[string]string
+	keys  []int // keys guaranteed in the nested map (their values are strings)
+}
+
 type gctx struct {
-	loops    bool // cycles allowed (Graph API, any-predecessor mode, top level of the sequence)
+	kmap     map[int]*kshape // keys (they are never reused) whose value is a nested map
+	loops    bool            // cycles allowed (Graph API, any-predecessor mode, top level of the sequence)
 	r        *lib.Rng
 	nextID   int
 	nextKey  int
@@ -17,6 +24,28 @@ type gctx struct {
 }
 
 func (g *gctx) id() int  { g.nextID++; return g.nextID }
+
+// nested maps (an output key around a map producer, nested values in the input) are
+// generated in every case that does not deliberately leave the property's domain
+func (g *gctx) nestOK() bool { return g.inject == "" }
+
+func (g *gctx) setShape(k int, typed bool, keys []int) {
+	if g.kmap == nil {
+		g.kmap = map[int]*kshape{}
+	}
+	g.kmap[k] = &kshape{typed: typed, keys: keys}
+}
+
+// the keys among ks whose value is a string
+func (g *gctx) strKeys(ks []int) []int {
+	var out []int
+	for _, k := range ks {
+		if g.kmap[k] == nil {
+			out = append(out, k)
+		}
+	}
+	return out
+}
 func (g *gctx) key() int { g.nextKey++; return g.nextKey - 1 }
 
 func (g *gctx) natSubset() [4]bool {
@@ -74,29 +103,51 @@ func kindOf(inMap, outMap bool) int {
 // a value of type curT (guaranteed keys curKeys) and a value of type wantT.
 // Returns the wrap, the inner input/output types and the guaranteed output keys of the
 // wrapper itself (nil = those of the inner object).
-func (g *gctx) wrap(curT bool, curKeys []int, wantT bool) (w *Wrap, innerIn, innerOut bool, forcedKeys []int) {
-	w = &Wrap{}
-	innerIn, innerOut = curT, wantT
-	if curT && (len(curKeys) > 0 || g.inject == "nokey") && g.r.Chance(1, 2) {
+type wrapRes struct {
+	w       *Wrap
+	in, out bool  // inner input / output is a map
+	forced  []int // guaranteed output keys of the wrapper itself (nil = those of the inner object)
+	inKeys  []int // the input key selects a nested map: its guaranteed keys
+	inTyped bool  // ... and that map is a map[string]string
+}
+
+// typedIn: the inner object can be declared with a map[string]string input (a lambda, not a graph)
+func (g *gctx) wrap(curT bool, curKeys []int, wantT bool, typedIn bool) wrapRes {
+	w := &Wrap{}
+	res := wrapRes{in: curT, out: wantT}
+	cands := curKeys
+	if !typedIn {
+		cands = nil
+		for _, k := range curKeys {
+			if sh := g.kmap[k]; sh == nil || !sh.typed {
+				cands = append(cands, k)
+			}
+		}
+	}
+	if curT && (len(cands) > 0 || g.inject == "nokey") && g.r.Chance(1, 2) {
 		var k int
 		if g.inject == "nokey" && !g.injected {
 			k = g.key() // a key nobody produces
 			g.injected = true
-		} else if len(curKeys) > 0 {
-			k = curKeys[g.r.Intn(len(curKeys))]
+		} else if len(cands) > 0 {
+			k = cands[g.r.Intn(len(cands))]
 		} else {
 			k = -1
 		}
 		if k >= 0 {
 			w.In = &k
-			innerIn = false
+			res.in = false
+			if sh := g.kmap[k]; sh != nil {
+				res.in, res.inKeys, res.inTyped = true, sh.keys, sh.typed
+			}
 		}
 	}
 	if wantT && g.r.Chance(1, 2) {
 		k := g.key()
 		w.Out = &k
-		innerOut = false
-		forcedKeys = []int{k}
+		// the value under the output key: a string, or (nested) a map again
+		res.out = g.nestOK() && g.r.Chance(1, 3)
+		res.forced = []int{k}
 	}
 	if g.r.Chance(1, 7) {
 		w.Pre = g.handler(curT)
@@ -105,6 +156,7 @@ func (g *gctx) wrap(curT bool, curKeys []int, wantT bool) (w *Wrap, innerIn, inn
 			if g.inject == "" {
 				k := w.Pre.K1
 				w.In = &k
+				res.in, res.inKeys, res.inTyped = false, nil, false
 			} else {
 				w.Pre = nil
 			}
@@ -113,13 +165,14 @@ func (g *gctx) wrap(curT bool, curKeys []int, wantT bool) (w *Wrap, innerIn, inn
 	if g.r.Chance(1, 7) {
 		w.Post = g.handler(wantT)
 		if wantT {
-			forcedKeys = []int{w.Post.K1}
+			res.forced = []int{w.Post.K1}
 		}
 	}
 	if w.Pre == nil && w.In == nil && w.Out == nil && w.Post == nil {
 		w = nil
 	}
-	return
+	res.w = w
+	return res
 }
 
 type stageOut struct {
@@ -131,38 +184,51 @@ type stageOut struct {
 
 func (g *gctx) genNode(curT bool, curKeys []int, wantT bool) stageOut {
 	g.budget--
-	w, iin, iout, forced := g.wrap(curT, curKeys, wantT)
+	wr := g.wrap(curT, curKeys, wantT, true)
+	w, iin, iout, forced := wr.w, wr.in, wr.out, wr.forced
 	sp := g.nspec(kindOf(iin, iout))
+	sp.TIn = wr.inTyped
 	if w == nil || w.Out == nil && w.Post == nil {
 		if g.inject == "wrongtype" && !g.injected {
 			// the consumers are declared with the other type: a dynamic type error in every paradigm
 			g.injected = true
 			sp = g.nspec(kindOf(iin, !iout))
+			sp.TIn = wr.inTyped
 			sp.AnyOut, sp.AnyMap = true, iout
 		} else if g.r.Chance(1, 6) {
 			sp.AnyOut, sp.AnyMap = true, iout
 		}
 	}
+	var own []int
+	switch sp.Kind {
+	case 2:
+		own = []int{sp.K1, sp.K2}
+	case 3:
+		own = []int{sp.K1}
+	}
+	if w != nil && w.Out != nil && iout {
+		// a map under an output key: half of the time the lambda is declared with map[string]string
+		sp.TOut = g.r.Chance(1, 2)
+		g.setShape(*w.Out, sp.TOut, own)
+	}
 	keys := forced
 	if keys == nil {
-		switch sp.Kind {
-		case 2:
-			keys = []int{sp.K1, sp.K2}
-		case 3:
-			keys = []int{sp.K1}
-		}
+		keys = own
 	}
 	return stageOut{&Prog{Op: "node", W: w, N: sp}, keys, true, false}
 }
 
 func (g *gctx) genSub(curT bool, curKeys []int, wantT bool, depth int) stageOut {
-	w, iin, iout, forced := g.wrap(curT, curKeys, wantT)
+	wr := g.wrap(curT, curKeys, wantT, false)
+	w, iin, iout, forced := wr.w, wr.in, wr.out, wr.forced
 	var innerKeys []int
 	if iin && w.InOrNil() == nil {
 		innerKeys = curKeys
 		if w != nil && w.Pre != nil {
 			innerKeys = []int{w.Pre.K1}
 		}
+	} else if iin {
+		innerKeys = wr.inKeys // the input key selects a nested map
 	}
 	id := g.id()
 	front := ""
@@ -183,12 +249,98 @@ func (g *gctx) genSub(curT bool, curKeys []int, wantT bool, depth int) stageOut 
 	default:
 		inner = g.genSeq(iin, innerKeys, iout, depth+1, g.r.Range(1, 3), false, true)
 	}
+	if w != nil && w.Out != nil && iout {
+		g.setShape(*w.Out, false, g.strKeys(inner.keys))
+	}
 	keys := forced
 	if keys == nil {
 		keys = inner.keys
 	}
 	dag := !inner.p.balanced() || g.r.Chance(1, 2)
 	return stageOut{&Prog{Op: "sub", W: w, ID: id, Kids: []*Prog{inner.p}, DAG: dag, Front: front}, keys, true, false}
+}
+
+// possKeys: the keys a map-typed output of p can carry when its input can carry `in`
+// (passthrough nodes and empty branch alternatives hand their input on)
+func possKeys(p *Prog, in map[int]bool) map[int]bool {
+	out := map[int]bool{}
+	add := func(m map[int]bool) {
+		for k := range m {
+			out[k] = true
+		}
+	}
+	wrapped := func(inner func(in map[int]bool) map[int]bool) {
+		w := p.W
+		if w != nil && w.Post != nil && w.Post.outMap() {
+			out[w.Post.K1] = true
+			return
+		}
+		if w != nil && w.Out != nil {
+			out[*w.Out] = true
+			return
+		}
+		if w != nil && (w.In != nil || w.Pre != nil) {
+			in = nil
+		}
+		add(inner(in))
+	}
+	switch p.Op {
+	case "pass", "skip":
+		add(in)
+	case "node":
+		wrapped(func(map[int]bool) map[int]bool {
+			switch p.N.Kind {
+			case 2:
+				return map[int]bool{p.N.K1: true, p.N.K2: true}
+			case 3:
+				return map[int]bool{p.N.K1: true}
+			}
+			return nil
+		})
+	case "sub":
+		wrapped(func(in map[int]bool) map[int]bool { return possKeys(p.Kids[0], in) })
+	case "seq":
+		cur := in
+		for _, k := range p.Kids {
+			cur = possKeys(k, cur)
+		}
+		add(cur)
+	case "loop":
+	default:
+		for _, k := range p.Kids {
+			add(possKeys(k, in))
+		}
+	}
+	return out
+}
+
+// disjointKids replaces every kid of a fan-in whose possible output keys meet those of an
+// earlier kid (two passthrough nodes handing the same map on, ...) by a plain node under a
+// fresh output key: a shared key is outside the property's domain (finding F-C04) and is
+// only produced deliberately (inject dupkey).
+func (g *gctx) disjointKids(kids []stageOut, curT bool, curKeys []int) {
+	in := map[int]bool{}
+	for _, k := range curKeys {
+		in[k] = true
+	}
+	seen := map[int]bool{}
+	for i, kid := range kids {
+		ks := possKeys(kid.p, in)
+		clash := false
+		for k := range ks {
+			if seen[k] {
+				clash = true
+			}
+		}
+		if clash {
+			ok := g.key()
+			kids[i] = stageOut{&Prog{Op: "node", W: &Wrap{Out: &ok}, N: g.nspec(kindOf(curT, false))}, []int{ok}, true, false}
+			ks = map[int]bool{ok: true}
+		}
+		for k := range ks {
+			seen[k] = true
+		}
+	}
 }
 
 func (w *Wrap) InOrNil() *int {
@@ -213,11 +365,15 @@ func (g *gctx) genPar(curT bool, curKeys []int, depth int, single bool) stageOut
 		return stageOut{&Prog{Op: "par", Kids: kids}, []int{k}, false, false}
 	}
 	n := g.r.Range(2, 3)
+	var outs []stageOut
+	for i := 0; i < n; i++ {
+		outs = append(outs, g.genSeq(curT, curKeys, true, depth+1, g.r.Range(1, 2), false, single))
+	}
+	g.disjointKids(outs, curT, curKeys)
 	var kids []*Prog
 	var keys []int
 	deferred := false
-	for i := 0; i < n; i++ {
-		k := g.genSeq(curT, curKeys, true, depth+1, g.r.Range(1, 2), false, single)
+	for _, k := range outs {
 		kids = append(kids, k.p)
 		keys = append(keys, k.keys...)
 		deferred = deferred || k.deferred
@@ -230,10 +386,14 @@ func (g *gctx) genPar(curT bool, curKeys []int, depth int, single bool) stageOut
 func (g *gctx) genMulti(curT bool, curKeys []int, depth int) stageOut {
 	n := g.r.Range(2, 3)
 	c := &CSpec{ID: g.id(), Collect: g.r.Chance(1, 2)}
+	var outs []stageOut
+	for i := 0; i < n; i++ {
+		outs = append(outs, g.genSeq(curT, curKeys, true, depth+1, g.r.Range(1, 2), true, true))
+	}
+	g.disjointKids(outs, curT, curKeys)
 	var kids []*Prog
 	deferred := false
-	for i := 0; i < n; i++ {
-		k := g.genSeq(curT, curKeys, true, depth+1, g.r.Range(1, 2), true, true)
+	for _, k := range outs {
 		kids = append(kids, k.p)
 		deferred = deferred || k.deferred
 	}
@@ -397,6 +557,25 @@ func (g *gctx) genInput(isMap bool) (chunks []*V, keys []int) {
 		for i, n := 0, g.r.Range(1, 3); i < n; i++ {
 			k := g.key()
 			keys = append(keys, k)
+			if g.nestOK() && g.r.Chance(1, 4) {
+				// a nested map: map[string]string or map[string]any with string values
+				typed := g.r.Chance(1, 2)
+				var inner []int
+				ms, ma := map[string]string{}, map[string]any{}
+				for j, nn := 0, g.r.Range(1, 2); j < nn; j++ {
+					ik := g.key()
+					inner = append(inner, ik)
+					v := g.genString()
+					ms[keyStr(ik)], ma[keyStr(ik)] = v, v
+				}
+				g.setShape(k, typed, inner)
+				if typed {
+					m[keyStr(k)] = ms
+				} else {
+					m[keyStr(k)] = ma
+				}
+				continue
+			}
 			m[keyStr(k)] = g.genString()
 		}
 		x = m
@@ -422,6 +601,12 @@ func (engine) Generate(r *lib.Rng, tier string, i int) any {
 		}
 		if r.Chance(1, 4) {
 			sp.AnyOut, sp.AnyMap = true, sp.outMap()
+		} else if sp.outMap() && r.Chance(1, 3) {
+			sp.TOut = true // declared with map[string]string
+		}
+		if sp.inMap() && r.Chance(1, 3) {
+			sp.TIn = true
+			g.inject = "flat" // a map[string]string input has string values only
 		}
 		chunks, _ := g.genInput(sp.inMap())
 		return &Case{Kind: "pack", Spec: sp, Chunks: chunks}
@@ -544,7 +729,8 @@ func (g *gctx) chooseFailure(r *lib.Rng, p *Prog) {
 // rawKeys) into what the next stage sees (type nextT); forceTo: the mapping must be a To
 // mapping (fan-in / re-join: every incoming edge writes its own fields).
 // Returns the mapping (nil = whole output), the resulting type and guaranteed keys.
-func (g *gctx) outMapFor(rawT bool, rawKeys []int, nextT bool, forceTo bool) (*FMap, bool, []int) {
+func (g *gctx) outMapFor(rawT bool, allKeys []int, nextT bool, forceTo bool) (*FMap, bool, []int) {
+	rawKeys := g.strKeys(allKeys) // fields read one by one: the string-valued ones
 	pickKey := func() *int {
 		var k int
 		if g.inject == "fmkey" && !g.injected {
@@ -587,7 +773,7 @@ func (g *gctx) outMapFor(rawT bool, rawKeys []int, nextT bool, forceTo bool) (*F
 		}
 		return f, true, keys
 	}
-	return nil, rawT, rawKeys
+	return nil, rawT, allKeys
 }
 
 // wfLeaf: a node or nested graph whose outgoing edges carry a field mapping towards a
@@ -609,7 +795,7 @@ func (g *gctx) wfLeaf(curT bool, curKeys []int, nextT *bool, forceTo bool, depth
 	} else {
 		st = g.genNode(curT, curKeys, rawT)
 	}
-	if rawT && len(st.keys) == 0 && (forceTo || !want) {
+	if rawT && len(g.strKeys(st.keys)) == 0 && (forceTo || !want) {
 		// a map whose keys are not known statically cannot be read field by field: use a string producer
 		rawT = false
 		st = g.genNode(curT, curKeys, rawT)
@@ -732,15 +918,31 @@ func (g *gctx) chainSeqTo(tin bool, keys []int, nStages int, tout *bool) stageOu
 				g.budget--
 				w := &Wrap{}
 				innerIn := curT
+				typedIn := false
 				if curT && len(curKeys) > 0 && g.r.Chance(1, 2) {
 					k := curKeys[g.r.Intn(len(curKeys))]
 					w.In = &k
 					innerIn = false
+					if sh := g.kmap[k]; sh != nil {
+						innerIn, typedIn = true, sh.typed
+					}
 				}
 				ok := g.key()
 				w.Out = &ok
 				ks = append(ks, ok)
-				kids = append(kids, &Prog{Op: "node", W: w, N: g.nspec(kindOf(innerIn, false))})
+				// the value under the output key: a string, or (nested) a map again
+				innerOut := g.nestOK() && g.r.Chance(1, 3)
+				sp := g.nspec(kindOf(innerIn, innerOut))
+				sp.TIn = typedIn
+				if innerOut {
+					sp.TOut = g.r.Chance(1, 2)
+					own := []int{sp.K1}
+					if sp.Kind == 2 {
+						own = []int{sp.K1, sp.K2}
+					}
+					g.setShape(ok, sp.TOut, own)
+				}
+				kids = append(kids, &Prog{Op: "node", W: w, N: sp})
 			}
 			st = stageOut{&Prog{Op: "par", Kids: kids}, ks, false, false}
 			wantT = true
